@@ -386,3 +386,65 @@ extern "C" void s_remove_component_encapsulated()
     vcheck(m->componentCount() == 2 && a->parent() == m && b->parent() == m, "the direct children are untouched");
     END();
 }
+
+// ---- histories of length two or three (each call from the state the previous one left)
+extern "C" void s_history_move_then_remove()
+{
+    auto c1 = Component::create("a");
+    auto c2 = Component::create("b");
+    auto v1 = Variable::create(name2('p'));
+    auto v2 = Variable::create(name2('p'));
+    c1->addVariable(v1);
+    c2->addVariable(v2);
+    bool moved = c2->addVariable(v1);
+    vcheck(moved && v1->parent() == c2 && c1->variableCount() == 0 && c2->variableCount() == 2, "a moved variable changes owner");
+    bool stale = c1->removeVariable(v1);
+    vcheck(!stale || c2->variableCount() == 2, "removing a variable from its former owner does not disturb the new owner");
+    vcheck(v2->parent() == c2, "the variables of the new owner keep their parent");
+    if (vin(0, 1)) {
+        bool ok = c2->removeVariable(v1);
+        vcheck(ok && v1->parent() == nullptr && c2->variableCount() == 1 && c2->variable(0) == v2 && v2->parent() == c2, "removing the moved variable affects exactly it");
+    } else {
+        bool ok = c2->removeVariable(v2);
+        vcheck(ok && v2->parent() == nullptr && c2->variableCount() == 1 && c2->variable(0) == v1 && v1->parent() == c2, "removing the resident variable affects exactly it");
+    }
+    END();
+}
+extern "C" void s_history_replace_then_readd()
+{
+    auto m = Model::create("m");
+    auto c1 = Component::create("a");
+    auto c2 = Component::create("b");
+    auto cx = Component::create("c");
+    m->addComponent(c1);
+    m->addComponent(c2);
+    bool rep = m->replaceComponent(0, cx);
+    vcheck(rep && c1->parent() == nullptr && cx->parent() == m && m->component(0) == cx, "replacement swaps exactly the addressed child");
+    bool back = m->addComponent(c1);
+    vcheck(back && c1->parent() == m && m->componentCount() == 3 && m->component(2) == c1, "a replaced component can be added again and is listed once");
+    bool again = m->removeComponent(cx);
+    vcheck(again && cx->parent() == nullptr && m->componentCount() == 2 && m->component(0) == c2 && m->component(1) == c1, "removing the replacement affects exactly it");
+    END();
+}
+extern "C" void s_history_reset_remove_then_move()
+{
+    auto c1 = Component::create("a");
+    auto c2 = Component::create("b");
+    auto r1 = Reset::create();
+    auto r2 = Reset::create(); // structurally identical to r1
+    c1->addReset(r1);
+    c1->addReset(r2);
+    bool take = vin(0, 1) != 0;
+    if (take) {
+        ResetPtr t = c1->takeReset(0);
+        vcheck(t == r1, "takeReset returns the addressed reset");
+    } else {
+        bool ok = c1->removeReset(0);
+        vcheck(ok, "removeReset(0) succeeds");
+    }
+    vcheck(r1->parent() == nullptr && c1->resetCount() == 1 && c1->reset(0) == r2 && r2->parent() == c1, "removing a reset by index affects exactly it");
+    bool added = c2->addReset(r1);
+    vcheck(added && r1->parent() == c2 && c2->resetCount() == 1, "the removed reset can be added elsewhere");
+    vcheck(c1->resetCount() == 1 && c1->reset(0) == r2 && r2->parent() == c1, "adding it elsewhere leaves its look-alike in the old component alone");
+    END();
+}
